@@ -91,3 +91,17 @@ package structs
 //@ results key
 //@ requires forall j int :: 0 <= j && j < len(policies) ==> policies[j] != nil
 //@ loop 1 invariant[hashed-id-and-modify-index] hashedLen(cacheKeyHash) == 2*range1_idx && forall j int :: 0 <= j && j < range1_idx ==> hashedIsBytes(cacheKeyHash, 2*j, []byte(policies[j].ID)) && hashedIsInt(cacheKeyHash, 2*j+1, policies[j].ModifyIndex)
+
+//@ file structs.go
+
+// IsSame compares the registered definition with the catalog's copy (reflect.DeepEqual on maps and slices: outside
+// the verified subset). ASSUMED: a deterministic function of the two objects with no side effects.
+//@ func NodeService.IsSame
+//@ trusted
+//@ opt pure yes
+//@ results same
+//@ func HealthCheck.IsSame
+//@ trusted
+//@ opt pure yes
+//@ results same
+
